@@ -231,6 +231,67 @@ func TestVerifC04(t *testing.T) {
 		}
 	}
 
+	// (2c) INJECTED byte counts: a message of 2^32 bytes and more cannot be hashed in a quick run, and one
+	// of 2^61 - 64 bytes (the largest the standard's 64-bit bit-length field allows) never. The monitor
+	// sets the object's byte counter as if that many bytes had been absorbed (chaining value random:
+	// every value is reachable) and continues with real Writes across the interesting boundaries;
+	// the model encodes the bit length from the same count.
+	{
+		var counts []uint64
+		for _, sh := range []uint{29, 31, 32, 33, 35, 40, 48, 56, 60} {
+			base := uint64(1) << sh
+			counts = append(counts, base-64, base, base+64, base+64*uint64(1+rng.Intn(1000)))
+		}
+		counts = append(counts, 1<<61-128, 1<<61-192, 3<<32, 0xfffffffe<<6, 0xffffffff<<6, (1<<32-1)<<3&^63)
+		for i := 0; i < hk.N(10, 100); i++ {
+			counts = append(counts, (rng.Uint64()>>(3+uint(rng.Intn(40))))&^63)
+		}
+		for _, cnt := range counts {
+			for rep := 0; rep < 3; rep++ {
+				var h [8]uint32
+				for j := range h {
+					h[j] = uint32(rng.Uint64())
+				}
+				obj := &SM3{h: h, nx: 0, len: cnt}
+				var rest []byte
+				var hist []string
+				bad := false
+				// stay below 2^61 bytes in total
+				room := uint64(1<<61) - cnt
+				for op := 0; op < 1+rep*2 && !bad; op++ {
+					n := rng.Pick([]int{0, 1, 55, 56, 63, 64, 65, 128, 200})
+					if uint64(len(rest)+n) >= room {
+						n = 0
+					}
+					chunk := rng.Bytes(n)
+					wn, err := obj.Write(chunk)
+					rest = append(rest, chunk...)
+					hist = append(hist, fmt.Sprintf("W%d", n))
+					if err != nil || wn != n {
+						bad = true
+					}
+					if rng.Intn(2) == 0 {
+						hist = append(hist, "S")
+						if !bytes.Equal(obj.Sum(nil), ref.SM3Continue(h, cnt, rest)) {
+							bad = true
+						}
+					}
+				}
+				if !bad && !bytes.Equal(obj.Sum(nil), ref.SM3Continue(h, cnt, rest)) {
+					bad = true
+				}
+				if bad {
+					r.Violation("sum-wrong-from-injected-byte-count", hk.D{"chaining_value": fmt.Sprintf("%08x", h), "absorbed_bytes": cnt, "history": hist, "rest": hk.Hex(trunc(rest))})
+				}
+				bl := 0
+				for v := cnt; v > 0; v >>= 1 {
+					bl++
+				}
+				r.Eval(fmt.Sprintf("injected-count:bitlen=%d", bl))
+			}
+		}
+	}
+
 	// (3) through io.Copy / io.Writer plumbing, the way callers use hash.Hash.
 	for i := 0; i < hk.N(300, 3000); i++ {
 		n := rng.Intn(5000)
